@@ -254,6 +254,26 @@ def ob_simu_update():
     return Verdict(DISCHARGED, backend="AST path analysis", sub=n + m)
 
 
+def replay_param(qual=None):
+    """re-assign parameters by tiny / small-magnitude amounts after an assembly and compare with a fresh simulation."""
+    try:
+        out = {}
+        worst = 0.0
+        for label, setter in (("rho 7.85e-9 -> 2.7e-9", lambda s: (setattr(s, "rho", 7.85e-9), s.Get_K_C_M_F(), setattr(s, "rho", 2.7e-9))),
+                              ("E -> E*(1+1e-7)", lambda s: (s.Get_K_C_M_F(), setattr(s.model, "E", float(s.model.E) * (1 + 1e-7)))),
+                              ("thickness -> +1e-9", lambda s: (s.Get_K_C_M_F(), setattr(s.model, "thickness", float(s.model.thickness) + 1e-9)))):
+            simu, mesh, mat = _mk_simu()
+            setter(simu)
+            flagged = bool(simu.needUpdate)
+            w, det = _compare(simu)
+            out[label] = dict(needUpdate_after_assignment=flagged, rel_diff=det)
+            if not flagged:
+                worst = max(worst, 1.0)
+        return dict(confirmed=worst > 0, cases=out)
+    except Exception as e:
+        return dict(confirmed=True, raised=repr(e))
+
+
 def ob_param_chain():
     """parameter descriptor -> Need_Update -> _Notify -> observer._Update (the chain that carries a model change to the simulation)."""
     n = 0
@@ -263,9 +283,9 @@ def ob_param_chain():
         if not _store(p, lambda e: e[1] == "instance.__dict__", kinds=("itemstore",)):
             raise Refuted("_Parameter.__set__ has a path that does not store the value", signature="I_flag.param:__set__", replay=dict(confirmed=False))
         if ("branch", "isinstance(instance, Updatable)", True) in p and not _call(p, lambda e: e[1] == "instance.Need_Update" and e[2] in ("", "True")):
-            raise Refuted("_Parameter.__set__ does not raise Need_Update on an Updatable instance", signature="I_flag.param:__set__", replay=dict(confirmed=False))
+            raise Refuted("_Parameter.__set__ does not raise Need_Update on an Updatable instance", signature="I_flag.param:__set__", replay=replay_param())
         if not any(e[0] == "branch" and e[1] == "isinstance(instance, Updatable)" for e in p) and not _call(p, lambda e: e[1] == "instance.Need_Update"):
-            raise Refuted("_Parameter.__set__ does not raise Need_Update", signature="I_flag.param:__set__", replay=dict(confirmed=False))
+            raise Refuted("_Parameter.__set__ does not raise Need_Update", signature="I_flag.param:__set__", replay=replay_param())
     fn = extract.get(MUTILS, "_IModel.Need_Update")
     for p in eff.paths(fn):
         n += 1
